@@ -23,7 +23,7 @@ META = dict(
         'symbolic alone and all 15 pairs on P1, singles + 6 pairs on P2; 4-5 '
         'eligibility tables incl. fixed/ct/cx/tx rows; both searches; '
         'n_designs=3; other constraints None or listed concrete values',
-        thorough='adds panels P3 P4 P7 P8, all pairs on 4-geo panels, triples '
+        thorough='adds panels P3 P8, all pairs on 4-geo panels, two triples '
         'on P1, seeded eligibility tables, concrete values for the '
         'non-symbolic constraints'),
     outside='panel cells concrete (listed family); iroas in {2.0}; real-'
@@ -110,7 +110,7 @@ def jobs(tier, seed):
     rnd = random.Random(seed)
     rt = list(search.ROW_TYPES)
     for m in methods:
-      for panel in ['P3', 'P4', 'P7', 'P8']:
+      for panel in ['P3', 'P8']:
         n = 3 if panel == 'P4' else 4
         els = [None] + [dict(zip('0123'[:n], (rnd.choice(rt) for _ in range(
             n)))) for _ in range(3)]
@@ -119,8 +119,7 @@ def jobs(tier, seed):
             out.append(_mk(panel, m, [s], el, i, seed=seed))
           for pr in PAIRS6:
             out.append(_mk(panel, m, pr, el, i, seed=seed, max_s=2500))
-      for tr in [('share', 'budget', 'vol'), ('tsize', 'csize', 'gratio'),
-                 ('share', 'tsize', 'gratio'), ('budget', 'vol', 'csize')]:
+      for tr in [('tsize', 'csize', 'gratio'), ('share', 'tsize', 'gratio')]:
         for i, el in enumerate(ELIGS3[:2]):
           out.append(_mk('P1', m, tr, el, i, max_s=2800))
   out.append(dict(func='job', name='twin', kwargs=dict(
